@@ -104,7 +104,7 @@ def c06_1(ctx: Ctx):
     fa = repo.func("_modify.functions.add_function_block_aux")
     lin = linear(fa.node)
     m = [g for g in lin.stmts if isinstance(g.node, ast.Assign) and src(g.node.targets[0]) == "cache.functions_by_block[new_block]"]
-    ctx.check(len(m) == 1 and m[0].guard == TRUE and src(m[0].node.value) == "func_uuid", fa, m[0].node if m else fa.node,
+    ctx.check(len(m) == 1 and m[0].top and src(m[0].node.value) == "func_uuid", fa, m[0].node if m else fa.node,
               "cache.functions_by_block[new_block] = func_uuid unconditionally", "mirror update is conditional or changed")
     add = [(g, c) for g, c in lin.all_calls() if src(c.func) == "function_blocks[func_uuid].add"]
     ctx.check(len(add) == 1 and src(add[0][1].args[0]) == "new_block", fa, add[0][1] if add else fa.node,
